@@ -180,16 +180,17 @@ Proof.
 Qed.
 
 (* ------------------------------------------------------------------ ndarray *)
-Lemma nd_raw_enc {A} (d : json -> outcome A) (e : A -> json) (dims : list Z) (l : list A) :
-  (forall x, In x l -> d (e x) = Ok x) -> (forall z, In z dims -> 0 <= z <= u64_max) ->
-  nd_raw d (enc_struct [k_v; k_dim; k_data] [JInt 1; JArr (map JInt dims); enc_seq e l]) = Ok (dims, l).
+Lemma nd_raw_enc {A} (rank : nat) (d : json -> outcome A) (e : A -> json) (dims : list Z) (l : list A) :
+  (forall x, In x l -> d (e x) = Ok x) -> (forall z, In z dims -> 0 <= z <= u64_max) -> List.length dims = rank ->
+  nd_raw rank d (enc_struct [k_v; k_dim; k_data] [JInt 1; JArr (map JInt dims); enc_seq e l]) = Ok (dims, l).
 Proof.
-  intros Hd Hz. unfold nd_raw, enc_struct. cbn [map combine nd_scan].
+  intros Hd Hz Hr. unfold nd_raw, enc_struct. cbn [map combine nd_scan].
   change (name_eqb k_v k_v) with true. cbv iota.
   change (dec_u8 (JInt 1 : json)) with (Ok 1 : outcome Z). cbn [obind]. change (1 =? 1) with true. cbv iota.
   change (name_eqb k_dim k_v) with false. change (name_eqb k_dim k_data) with false.
   change (name_eqb k_dim k_dim) with true. cbv iota.
   unfold dec_seq at 1. rewrite omapM_map by (intros z Hin; apply dec_usize_range; auto). cbn [obind].
+  rewrite Hr, Nat.eqb_refl.
   change (name_eqb k_data k_v) with false. change (name_eqb k_data k_data) with true. cbv iota.
   unfold dec_seq, enc_seq. rewrite omapM_map by auto. cbn [obind negb]. reflexivity.
 Qed.
